@@ -1,19 +1,39 @@
 """C42 — IMAP4 nested lists: real collapseNestedLists / parseNestedParens / splitQuoted vs the Lean model,
 and the round-trip property evaluated on the real code."""
+import copy
+import hashlib
+import itertools
+
 from twisted.mail import imap4
 from twisted.mail.imap4 import collapseNestedLists, parseNestedParens, splitQuoted
 
 HEADLINE = "TwistedProps.C42.parse_collapse_partial"
 RULE = ("nested lists (depth <= 4, 0..5 items per level) of byte strings over a hostile alphabet (quote, backslash, CR, LF, "
-        "braces, brackets, parens, whitespace, NIL-like text, NUL, 0xff; lengths 0..12 and 999/1000/1001/1005 around the "
-        "literal threshold), None and integers (negative, zero, big) through collapse, parse(collapse) and the same "
-        "serialization wrapped in parentheses; plus raw byte strings (well-formed fragments + random garbage, literal headers "
-        "with every int() spelling, handleLiteral 0/1) through parseNestedParens and splitQuoted directly; "
-        "distinct = (op, feature set of the case: backslash/quote/literal/long/ws-tail/nil/int/depth, outcome class)")
+        "braces, brackets, parens, whitespace, NIL-like text, NUL, 0xff, plus bytes special to other tokenizers: \\x0b \\x0c "
+        "\\x1c-\\x1f \\x7f \\x80 \\x85 \\xa0; lengths 0..12 and 999/1000/1001/1005 around the literal threshold), None and "
+        "integers (negative, zero, 2**32, 2**64+3, -10**50) through collapse, parse(collapse) and the same serialization "
+        "wrapped in parentheses; the same structures handed over as other legal Python values (every list a tuple / a one-shot "
+        "iterator / a generator / a bare iterable / a different kind per node; integers and byte strings as instances of a "
+        "trivial subclass) - about 30 % of the structure cases; deep structures (one spine of depth 5..200, sizes around 32 / "
+        "64 / 128); long strings (28 lengths from 1002 to 2 MiB around every power of two / ten where the {n} header or a "
+        "limit could change, hostile bytes at both ends, alone / first / last / nested / two of them - model-compared up to "
+        "12000 bytes, above that oracle-only); histories on one object (op reuse: garbage parsed first, the list serialized and "
+        "parsed, the parsed result scribbled over by its owner and the same bytes parsed again, then the very same list objects "
+        "modified in place - set / del / insert / append / clear at any depth - and serialized + parsed again); plus raw byte "
+        "strings (well-formed fragments + random garbage, literal headers with every int() spelling, handleLiteral 0/1) through "
+        "parseNestedParens and splitQuoted directly; "
+        "distinct = (op, feature set of the case: backslash/quote/literal/long/ws-tail/nil/int/exotic byte/size bucket/"
+        "container kind/subclass/history shape, depth bucket, outcome class)")
 ASSUMES = [
-    "items are bytes, None, int (not bool) and lists; str items (ASCII-encoded first), DontQuoteMe and file-like items are other branches",
+    "items are bytes (or instances of a bytes subclass that overrides nothing), None, int (not bool; subclasses that override "
+    "nothing included) and iterables of those; str items (ASCII-encoded first), DontQuoteMe and file-like items are other branches",
+    "integers have fewer than 4300 decimal digits (CPython refuses str() of longer ones) and the nesting depth stays below the "
+    "interpreter's recursion limit (collapseNestedLists and collapseStrings recurse once per level; the tie goes to depth 200)",
     "literal sizes in parser input are non-negative (a negative size makes the real loop move backwards and possibly spin; "
     "the model stops there and the tie never feeds such input) and have fewer than 4300 digits (CPython's int() limit)",
+    "the Lean model is a pure function of the abstract structure: which Python container / subclass carries it and what the "
+    "same objects or the parser were used for before are invisible to it, so those cases are compared with the model's "
+    "answer for the plain structure (and judged by the oracle from the statement)",
 ]
 TRUSTED = []
 MANIFEST = {
@@ -21,10 +41,14 @@ MANIFEST = {
             "integers (no bound on size, depth or bytes) in which no quoted string contains a backslash, "
             "parseNestedParens(collapseNestedLists(t)) is t with integers as decimal text - proved on the executable model by "
             "a consumption lemma per item for the parser loop and a pending-run invariant for collapseStrings/splitQuoted; "
+            "corollaries parse_collapse_deep (any nesting depth), parse_collapse_literal_any / parse_collapse_long (a literal "
+            "of any length with any bytes, anywhere); "
             "the backslash case is a proved counterexample (parse_collapse_counterexample, known finding 'backslash': "
             "splitQuoted never unescapes a backslash and test_parenParser pins that); the trailing-literal/strip() defect was "
             "found by the oracle and fixed in twisted (c30b1ae); model tied to imap4.py by differential runs of collapse / "
-            "parse / splitQuoted on hostile inputs.",
+            "parse / splitQuoted on hostile inputs, including tuples / one-shot iterables / subclass instances, depth to 200, "
+            "strings to 2 MiB and reuse of the same list objects and of parse results (white-box mutation audit, "
+            "harness/mutants/C42).",
     "note": "trusts Lean kernel, the hand-written model of collapseNestedLists/parseNestedParens/collapseStrings/splitQuoted "
             "(differentially tied), CPython bytes.strip/replace/int",
     "technique": "Lean 4 proof (fold consumption lemmas + mutual structural induction) + differential tie",
@@ -32,6 +56,9 @@ MANIFEST = {
 }
 
 # ------------------------------------------------------------------ encoding
+
+
+BIG_MODEL = 12000      # cases with more string bytes than this are oracle-only (the model's lists are quadratic)
 
 
 def hx(b):
@@ -42,17 +69,64 @@ def unhx(h):
     return b"" if h == "-" else bytes.fromhex(h)
 
 
-def to_py(tree):
-    """case tree (JSON) → python structure for collapseNestedLists"""
+class SubInt(int):
+    """an application's int subclass (no overrides): still an integer"""
+
+
+class SubBytes(bytes):
+    """an application's bytes subclass (no overrides): still a byte string"""
+
+
+class OnlyIter:
+    """an iterable that is nothing else: no __len__, no __getitem__, no __bool__"""
+
+    def __init__(self, xs):
+        self._xs = xs
+
+    def __iter__(self):
+        return iter(self._xs)
+
+
+KINDS = ["list", "tuple", "iter", "gen", "obj"]
+
+
+def _container(kind, xs):
+    if kind == "tuple":
+        return tuple(xs)
+    if kind == "iter":
+        return iter(xs)                  # one-shot
+    if kind == "gen":
+        return (x for x in xs)           # one-shot
+    if kind == "obj":
+        return OnlyIter(xs)
+    return xs
+
+
+def item_bytes(t):
+    """the byte string a {"b": hex} or {"r": [head, pat, n, tail]} item denotes"""
+    if "b" in t:
+        return unhx(t["b"])
+    h, p, n, tl = t["r"]
+    return unhx(h) + unhx(p) * n + unhx(tl)
+
+
+def to_py(tree, cont="list", sub="", cs=0, depth=0):
+    """case tree (JSON) -> python structure for collapseNestedLists.  `cont`: what every list of the tree is handed
+    over as (list / tuple / one-shot iterator / generator / bare iterable; "mixed": a different kind per node, chosen by
+    `cs`); `sub`: "int" / "bytes" / "both" make the integers / byte strings instances of a trivial subclass."""
     out = []
-    for t in tree:
-        if t is None or isinstance(t, int):
-            out.append(t)
+    for k, t in enumerate(tree):
+        if t is None:
+            out.append(None)
+        elif isinstance(t, int):
+            out.append(SubInt(t) if sub in ("int", "both") else t)
         elif isinstance(t, dict):
-            out.append(unhx(t["b"]))
+            b = item_bytes(t)
+            out.append(SubBytes(b) if sub in ("bytes", "both") else b)
         else:
-            out.append(to_py(t))
-    return out
+            out.append(to_py(t, cont, sub, cs + 7 * k + 3, depth + 1))
+    kind = KINDS[(cs + depth) % len(KINDS)] if cont == "mixed" else cont
+    return _container(kind, out)
 
 
 def toks_in(tree):
@@ -63,21 +137,33 @@ def toks_in(tree):
         elif isinstance(t, int):
             out.append("i%d" % t)
         elif isinstance(t, dict):
-            out.append("s" + t["b"])
+            out.append("s" + hx(item_bytes(t)))
         else:
             out += ["("] + toks_in(t) + [")"]
     return out
 
 
+def tree_size(tree):
+    """total number of string bytes (what the model's cost grows with)"""
+    return sum(len(item_bytes(t)) if isinstance(t, dict) else tree_size(t) if isinstance(t, list) else 1 for t in tree)
+
+
+def _sx(x):
+    """a string of the result; huge ones (oracle-only cases) by length and digest, to keep outputs small"""
+    if len(x) > BIG_MODEL:
+        return "h%d.%s" % (len(x), hashlib.sha256(x).hexdigest()[:16])
+    return "s" + hx(x)
+
+
 def render(res):
-    """parser result (bytes / None / lists) → canonical token line"""
+    """parser result (bytes / None / lists) -> canonical token line"""
     def go(xs):
         out = []
         for x in xs:
             if x is None:
                 out.append("n")
             elif isinstance(x, bytes):
-                out.append("s" + hx(x))
+                out.append(_sx(x))
             elif isinstance(x, list):
                 out += ["("] + go(x) + [")"]
             else:
@@ -96,7 +182,7 @@ def expected(tree):
         elif isinstance(t, int):
             out.append(b"%d" % t)
         elif isinstance(t, dict):
-            out.append(unhx(t["b"]))
+            out.append(item_bytes(t))
         else:
             out.append(expected(t))
     return out
@@ -109,13 +195,19 @@ HOSTILE = [b'"', b"\\", b"\r", b"\n", b"{", b"}", b"(", b")", b"[", b"]", b" ", 
 SPECIAL = [b"NIL", b"nil", b"NIL ", b"{3}", b"{3}\r\nabc", b"()", b")(", b'""', b'"', b"\\", b"\\\\", b'\\"', b'a\\',
            b"a\\b", b"\r\n", b"a\n", b" a ", b"", b"[]", b"BODY[TEXT]", b"12", b"-5"]
 WS = b" \t\r\n\x0b\x0c"
+# bytes that are special to some OTHER tokenizer (str.isspace / str.splitlines / \\s of a str regex / C strings / ASCII checks)
+EXOTIC = [b"\x0b", b"\x0c", b"\x1c", b"\x1d", b"\x1e", b"\x1f", b"\x7f", b"\x80", b"\x85", b"\xa0", b"\xc2\xa0", b"\xe2\x80\xa8",
+          b"\x01", b"+", b"_", b"'", b"#", b"~", b"&"]
 
 
 def _bytes(rng):
     r = rng.random()
     if r < 0.2:
         return rng.choice(SPECIAL)
-    if r < 0.26:
+    if r < 0.23:
+        n = rng.choice([0, 1, 2, 3, 5, 8])
+        return b"".join(rng.choice(EXOTIC + HOSTILE[:6]) for _ in range(n))
+    if r < 0.29:
         n = rng.choice([999, 1000, 1001, 1005])
         fill = rng.choice([b"a", b"a", b"\\", b'"', b" "])
         body = bytearray(fill * n)
@@ -127,7 +219,7 @@ def _bytes(rng):
 
 
 def _int(rng):
-    return rng.choice([0, 1, -1, 7, 10, -10, 99, 100, 1000, 1001, -2**31, 2**64 + 3, rng.randint(-10**6, 10**6)])
+    return rng.choice([0, 1, -1, 7, 10, -10, 99, 100, 1000, 1001, -2**31, 2**31, 2**32, 2**63, 2**64 + 3, -10**50, rng.randint(-10**6, 10**6)])
 
 
 def _tree(rng, depth):
@@ -176,6 +268,130 @@ def B(b):
     return {"b": hx(b)}
 
 
+# sizes around every power of ten / two at which a length field, a buffer or a sanity limit could change behaviour
+BIG_SIZES = [1002, 2047, 2048, 4095, 4096, 4097, 8192, 9999, 10000, 10001, 16384, 32767, 32768, 65535, 65536, 65537, 99999, 100000,
+             100001, 131072, 262144, 524288, 999999, 1000000, 1048575, 1048576, 1048577, 2097153]
+BIG_PATS = [b"a", b"a", b"\\", b'"', b" ", b"ab\r\n", b"\x00", b")", b"{1}", b"\xff"]
+
+
+def _big(rng, sizes):
+    """one long byte string, compactly: {"r": [head, pattern, count, tail]} = head + pattern*count + tail, total length from
+    `sizes` exactly; hostile bytes at both ends"""
+    total = rng.choice(sizes)
+    pat = rng.choice(BIG_PATS)
+    head = b"".join(rng.choice(HOSTILE) for _ in range(rng.choice([0, 0, 1, 3])))
+    tail = b"".join(rng.choice(HOSTILE) for _ in range(rng.choice([0, 0, 1, 3])))
+    n = (total - len(head) - len(tail)) // len(pat)
+    head += b"x" * (total - len(head) - len(tail) - n * len(pat))
+    return {"r": [hx(head), hx(pat), n, hx(tail)]}
+
+
+def _big_case(rng, sizes):
+    """a big string alone / first / last / in the middle / nested / two of them"""
+    big = _big(rng, sizes)
+    small = lambda: rng.choice([B(_bytes(rng)), None, _int(rng), []])
+    shape = rng.randrange(7)
+    items = [[big], [big, small()], [small(), big], [small(), big, small()], [[big]], [[small(), [big]], small()],
+             [big, _big(rng, BIG_SIZES[:6])]][shape]
+    return {"op": rng.choice(["roundtrip", "roundtrip", "wrapped"]), "items": items}
+
+
+DEPTHS = [5, 6, 7, 8, 10, 12, 16, 31, 32, 33, 34, 63, 64, 65, 100, 128, 129, 200]
+
+
+def _deep(rng):
+    """a tree with one spine of the chosen depth, small items (and small side lists) hanging off it"""
+    d = rng.choice(DEPTHS)
+    side = lambda: rng.choice([B(rng.choice(SPECIAL)), None, _int(rng), [], [B(b"a\n")], B(b"")])
+    t = [side() for _ in range(rng.choice([0, 1, 2]))]
+    for _ in range(d - 1):
+        lvl = [t]
+        if rng.random() < 0.3:
+            lvl.insert(0, side())
+        if rng.random() < 0.3:
+            lvl.append(side())
+        t = lvl
+    return t
+
+
+def _lists(tree, path=()):
+    """paths (indices through nested lists) of every list of the tree, the top-level one first"""
+    yield list(path)
+    for k, t in enumerate(tree):
+        if isinstance(t, list):
+            yield from _lists(t, path + (k,))
+
+
+def _at(tree, path):
+    for k in path:
+        tree = tree[k]
+    return tree
+
+
+def apply_edit(tree, e, conv=copy.deepcopy):
+    """one in-place modification of the list at e["p"]: set / del / ins at index e["i"], app(end), clear"""
+    lst = _at(tree, e["p"])
+    a = e["a"]
+    if a == "clear":
+        del lst[:]
+    elif a == "app":
+        lst.append(conv(e["v"]))
+    elif a == "ins":
+        lst.insert(e["i"], conv(e["v"]))
+    elif a == "set":
+        lst[e["i"]] = conv(e["v"])
+    elif a == "del":
+        del lst[e["i"]]
+
+
+def final_tree(c):
+    """the structure a `reuse` case ends up holding"""
+    t = copy.deepcopy(c["items"])
+    for e in c.get("edits", []):
+        apply_edit(t, e)
+    return t
+
+
+def _reuse(rng):
+    """history on ONE object: serialize it (and parse that, and let the caller scribble over the parsed result), after
+    parsing some garbage; then modify the very same list objects in place and serialize + parse again"""
+    items = _tree(rng, rng.choice([1, 2, 3]))
+    cur = copy.deepcopy(items)
+    edits = []
+    for _ in range(rng.choice([0, 1, 1, 1, 2, 3])):
+        paths = list(_lists(cur))
+        p = rng.choice(paths)
+        n = len(_at(cur, p))
+        a = rng.choice(["app", "app", "ins", "set", "del", "clear"])
+        v = rng.choice([B(_bytes(rng)), B(rng.choice(SPECIAL).replace(b"\\", b"/")), None, _int(rng), [], [B(b"z")]])
+        if a in ("set", "del") and n == 0:
+            a = "app"
+        e = {"p": p, "a": a}
+        if a in ("ins", "set", "del"):
+            e["i"] = rng.randrange(n + 1) if a == "ins" else rng.randrange(n)
+        if a in ("app", "ins", "set"):
+            e["v"] = v
+        apply_edit(cur, e)
+        edits.append(e)
+    pre = [hx(_raw(rng)) for _ in range(rng.choice([0, 0, 1, 2]))]
+    return {"op": "reuse", "items": items, "edits": edits, "pre": pre, "scribble": rng.random() < 0.6}
+
+
+def _variant(rng, c):
+    """hand the same structure over as other legal Python values"""
+    r = rng.random()
+    if r < 0.30:
+        c["cont"] = rng.choice(["tuple", "iter", "gen", "obj", "mixed", "mixed"])
+        c["cs"] = rng.randrange(5)
+    elif r < 0.45:
+        c["sub"] = rng.choice(["int", "bytes", "both"])
+    elif r < 0.50:
+        c["cont"] = rng.choice(["tuple", "gen", "mixed"])
+        c["cs"] = rng.randrange(5)
+        c["sub"] = "both"
+    return c
+
+
 def corpus():
     return [
         {"op": "roundtrip", "items": [B(b"a\\b")]},                       # witness: backslash doubled
@@ -204,23 +420,63 @@ def corpus():
         {"op": "split", "s": hx(b'foo NIL "baz buz" "NIL"')},
         {"op": "split", "s": hx(b'a"b c"d e')},
         {"op": "split", "s": hx(b'"a\\\\" "b"')},
+        # --- white-box mutation audit (harness/mutants/C42): other legal Python values of the same structure
+        {"op": "roundtrip", "items": [[B(b"a"), B(b"b")], 1], "cont": "tuple"},
+        {"op": "roundtrip", "items": [1, 2, B(b"x")], "cont": "iter"},                 # one-shot: scanned first = emptied
+        {"op": "roundtrip", "items": [[1, B(b"y")], [3, 4], []], "cont": "gen"},
+        {"op": "roundtrip", "items": [1, 2, 3], "cont": "gen"},
+        {"op": "wrapped", "items": [None, [B(b"NIL"), [7]]], "cont": "obj"},
+        {"op": "roundtrip", "items": [[B(b"a"), [2, [None]]], B(b"\n")], "cont": "mixed", "cs": 1},
+        {"op": "roundtrip", "items": [5, -5, B(b"ab"), [0, B(b"")]], "sub": "both"},
+        {"op": "roundtrip", "items": [2 ** 64 + 3, B(b"a\nb")], "sub": "both", "cont": "tuple"},
+        # sizes: the literal header grows a digit at 10000 / 100000 / 1000000; powers of two
+        {"op": "roundtrip", "items": [{"r": ["-", "61", 10000, "-"]}]},
+        {"op": "roundtrip", "items": [{"r": ["-", "61", 9999, "-"]}, 1]},
+        {"op": "roundtrip", "items": [{"r": ["22", "5c", 65535, "0a"]}, None]},
+        {"op": "wrapped", "items": [[{"r": ["-", "61620d0a", 262144, "29"]}]]},
+        {"op": "roundtrip", "items": [{"r": ["-", "00", 1048577, "-"]}, {"r": ["-", "22", 1001, "-"]}]},
+        # depth
+        {"op": "roundtrip", "items": _nest(33, [B(b"x")])},
+        {"op": "wrapped", "items": _nest(64, [None, 1])},
+        {"op": "roundtrip", "items": _nest(200, [])},
+        # history on one object
+        {"op": "reuse", "items": [B(b"a")], "edits": [{"p": [], "a": "app", "v": B(b"z")}], "pre": [], "scribble": False},
+        {"op": "reuse", "items": [[B(b"a")], 1], "edits": [{"p": [0], "a": "set", "i": 0, "v": None}], "pre": [], "scribble": True},
+        {"op": "reuse", "items": [B(b"c")], "edits": [], "pre": [hx(b"x {2"), hx(b"a)")], "scribble": True},
+        {"op": "reuse", "items": [[], [1, [B(b"q")]]], "edits": [{"p": [1, 1], "a": "clear"}, {"p": [0], "a": "app", "v": [B(b"z")]}],
+         "pre": [hx(b'("a')], "scribble": True},
     ]
+
+
+def _nest(d, inner):
+    for _ in range(d - 1):
+        inner = [inner]
+    return inner
 
 
 def generate(rng, tier):
     n = 2000 if tier == "quick" else 60000
     for _ in range(n):
         r = rng.random()
-        if r < 0.5:
-            yield {"op": "roundtrip", "items": _tree(rng, 1)}
-        elif r < 0.6:
-            yield {"op": "wrapped", "items": _tree(rng, 1)}
+        if r < 0.47:
+            yield _variant(rng, {"op": "roundtrip", "items": _tree(rng, 1)})
+        elif r < 0.56:
+            yield _variant(rng, {"op": "wrapped", "items": _tree(rng, 1)})
+        elif r < 0.60:
+            yield _variant(rng, {"op": rng.choice(["roundtrip", "roundtrip", "wrapped"]), "items": _deep(rng)})
         elif r < 0.68:
-            yield {"op": "collapse", "items": _tree(rng, 1)}
-        elif r < 0.86:
+            yield _reuse(rng)
+        elif r < 0.74:
+            yield _variant(rng, {"op": "collapse", "items": _tree(rng, 1)})
+        elif r < 0.88:
             yield {"op": "parse", "hl": 0 if rng.random() < 0.2 else 1, "s": hx(_raw(rng))}
         else:
             yield {"op": "split", "s": hx(_raw(rng))}
+    # long strings: a few small enough for the model (compared), the rest oracle-only
+    for _ in range(3 if tier == "quick" else 20):
+        yield _variant(rng, _big_case(rng, BIG_SIZES[:10]))
+    for _ in range(40 if tier == "quick" else 600):
+        yield _variant(rng, _big_case(rng, BIG_SIZES[10:]))
 
 
 def search(rng, tier, disagreeing):
@@ -231,22 +487,24 @@ def search(rng, tier, disagreeing):
                 s = c + d + e
                 for items in ([B(s)], [B(s), 1], [1, B(s)], [[B(s)]], [B(s), B(s)]):
                     yield {"op": "roundtrip", "items": items}
-    for case in disagreeing:
-        if "items" in case:
-            for sub in shrink(case):
-                yield sub
+    small = sorted((c for c in disagreeing if "items" in c), key=lambda c: len(repr(c)))[:12]
+    for case in small:
+        yield from itertools.islice(shrink(case), 40)
 
 
 # ------------------------------------------------------------------ model line / implementation
 
 
 def model_line(c):
-    if c["op"] in ("roundtrip", "collapse"):
-        t = toks_in(c["items"])
-        return c["op"] + " " + (",".join(t) if t else "-")
-    if c["op"] == "wrapped":
-        t = ["("] + toks_in(c["items"]) + [")"]
-        return "roundtrip " + ",".join(t)
+    if "items" in c:
+        items = final_tree(c) if c["op"] == "reuse" else c["items"]
+        if tree_size(items) > BIG_MODEL:
+            return None                      # oracle-only: the model's list operations are quadratic in the length
+        t = toks_in(items)
+        if c["op"] == "wrapped":
+            return "roundtrip " + ",".join(["("] + t + [")"])
+        op = "collapse" if c["op"] == "collapse" else "roundtrip"
+        return op + " " + (",".join(t) if t else "-")
     if c["op"] == "parse":
         return "parse %d %s" % (c["hl"], c["s"])
     return "split " + c["s"]
@@ -255,14 +513,52 @@ def model_line(c):
 _EXC = (imap4.MismatchedNesting, imap4.MismatchedQuoting, ValueError, IndexError)
 
 
+def _py(c):
+    return to_py(c["items"], c.get("cont", "list"), c.get("sub", ""), c.get("cs", 0))
+
+
+def _scribble(res):
+    """what a caller may do to a result it owns: empty every list of it and leave junk behind"""
+    for x in list(res):
+        if isinstance(x, list):
+            _scribble(x)
+    del res[:]
+    res.append(b"scribbled")
+
+
+def _reuse_impl(c):
+    for h in c.get("pre", []):               # earlier traffic on the same parser, some of it malformed
+        try:
+            parseNestedParens(unhx(h))
+        except _EXC:
+            pass
+    obj = to_py(c["items"])                  # plain lists: they are modified in place below
+    first = collapseNestedLists(obj)
+    try:
+        res = parseNestedParens(first)
+        if c.get("scribble"):
+            r1 = render(res)
+            _scribble(res)
+            r2 = render(parseNestedParens(bytes(bytearray(first))))   # equal bytes again
+            if r1 != r2:
+                return "!second parse of the same bytes differs: " + r2[:200]
+    except _EXC:
+        pass                                 # (a backslash in the first structure: not this case's business)
+    for e in c.get("edits", []):
+        apply_edit(obj, e, lambda v: to_py([v])[0])
+    return render(parseNestedParens(collapseNestedLists(obj)))
+
+
 def run_impl(c):
     try:
         if c["op"] == "collapse":
-            return hx(collapseNestedLists(to_py(c["items"])))
+            return hx(collapseNestedLists(_py(c)))
         if c["op"] == "roundtrip":
-            return render(parseNestedParens(collapseNestedLists(to_py(c["items"]))))
+            return render(parseNestedParens(collapseNestedLists(_py(c))))
         if c["op"] == "wrapped":
-            return render(parseNestedParens(b"(" + collapseNestedLists(to_py(c["items"])) + b")"))
+            return render(parseNestedParens(b"(" + collapseNestedLists(_py(c)) + b")"))
+        if c["op"] == "reuse":
+            return _reuse_impl(c)
         if c["op"] == "parse":
             s = unhx(c["s"])
             assert b"-" not in s
@@ -275,81 +571,147 @@ def run_impl(c):
 def _strings(tree):
     for t in tree:
         if isinstance(t, dict):
-            yield unhx(t["b"])
+            yield item_bytes(t)
         elif isinstance(t, list):
             yield from _strings(t)
 
 
-def _map_strings(tree, f):
-    return [B(f(unhx(t["b"]))) if isinstance(t, dict) else _map_strings(t, f) if isinstance(t, list) else t for t in tree]
+def _map_item(t, f):
+    if isinstance(t, dict):
+        b = item_bytes(t)
+        fb = f(b)
+        return t if fb == b else B(fb)
+    if isinstance(t, list):
+        return [_map_item(x, f) for x in t]
+    return t
+
+
+def _map_case(c, f):
+    """the same case with every byte string of it (also those its edits bring in) replaced by f(string)"""
+    c2 = dict(c, items=_map_item(c["items"], f))
+    if "edits" in c:
+        c2["edits"] = [dict(e, v=_map_item(e["v"], f)) if "v" in e else e for e in c["edits"]]
+    return c2
 
 
 def _is_literal(b):
     return b"\r" in b or b"\n" in b or len(b) > 1000
 
 
+def _want(c):
+    exp = expected(final_tree(c) if c["op"] == "reuse" else c["items"])
+    return render([exp] if c["op"] == "wrapped" else exp)
+
+
+def _all_strings(c):
+    yield from _strings(c["items"])
+    for e in c.get("edits", []):
+        if "v" in e:
+            yield from _strings([e["v"]])
+
+
 def oracle(c, out):
-    """parse(serialize(t)) == t with ints as decimal text — on the real functions only"""
-    if c["op"] not in ("roundtrip", "wrapped"):
+    """parse(serialize(t)) == t with ints as decimal text - on the real functions only; whatever Python values the
+    structure is handed over as, however long or deep it is, whatever the same objects / the parser were used for before"""
+    if c["op"] not in ("roundtrip", "wrapped", "reuse"):
         return None
-    exp = expected(c["items"])
-    if c["op"] == "wrapped":
-        exp = [exp]
-    want = render(exp)
+    want = _want(c)
     if out == want:
         return None
-    items = c["items"]
+    items = final_tree(c) if c["op"] == "reuse" else c["items"]
     last = items[-1] if items else None
     key = "roundtrip"
-    if any(b"\\" in s and not _is_literal(s) for s in _strings(items)):
-        # attribute the failure to the backslash only if the same structure without backslashes in its
+    if any(b"\\" in s and not _is_literal(s) for s in _all_strings(c)):
+        # attribute the failure to the backslash only if the same case without backslashes in its
         # quoted strings round-trips on the real code
-        clean = _map_strings(items, lambda s: s if _is_literal(s) else s.replace(b"\\", b"a"))
-        c2 = {"op": c["op"], "items": clean}
-        exp2 = expected(clean)
-        if run_impl(c2) == render([exp2] if c["op"] == "wrapped" else exp2):
-            key = "backslash"
-    elif (c["op"] == "roundtrip" and isinstance(last, dict) and _is_literal(unhx(last["b"]))
-          and unhx(last["b"])[-1:] in tuple(WS[i:i + 1] for i in range(len(WS)))):
+        c2 = _map_case(c, lambda s: s if _is_literal(s) else s.replace(b"\\", b"a"))
+        try:
+            if run_impl(c2) == _want(c2):
+                key = "backslash"
+        except Exception:
+            pass                       # fails without the backslashes too: not the known finding
+    elif (c["op"] == "roundtrip" and isinstance(last, dict) and _is_literal(item_bytes(last))
+          and item_bytes(last)[-1:] in tuple(WS[i:i + 1] for i in range(len(WS)))):
         key = "literal-tail-whitespace"
-    ser = collapseNestedLists(to_py(items))
-    return {"key": key, "detail": f"serialization {ser[:120]!r} parsed as {out[:200]} expected {want[:200]}"}
+    try:
+        ser = collapseNestedLists(to_py(items))
+    except Exception as e:
+        ser = b"<collapseNestedLists raised %s>" % type(e).__name__.encode()
+    how = "".join(" %s=%s" % (k, c[k]) for k in ("cont", "sub") if c.get(k)) + (" (same objects reused)" if c["op"] == "reuse" else "")
+    return {"key": key, "detail": f"serialization {ser[:120]!r}{how} parsed as {out[:200]} expected {want[:200]}"}
+
+
+def _with(c, items):
+    return dict(c, items=items)
 
 
 def shrink(c):
     if "items" not in c:
         return
+    if c["op"] == "reuse":
+        if c.get("pre"):
+            yield dict(c, pre=c["pre"][1:])
+            yield dict(c, pre=c["pre"][:-1])
+        if c.get("scribble"):
+            yield dict(c, scribble=False)
+        if c.get("edits"):
+            # fold the first edit into the starting structure / drop the last one
+            t = copy.deepcopy(c["items"])
+            apply_edit(t, c["edits"][0])
+            yield dict(c, items=t, edits=c["edits"][1:])
+            yield dict(c, edits=c["edits"][:-1])
+            return
+        yield {"op": "roundtrip", "items": c["items"]}
+    for k in ("cont", "sub"):
+        if c.get(k):
+            yield {x: v for x, v in c.items() if x != k}
+    if c.get("cont") == "mixed":
+        for kind in KINDS:
+            yield dict(c, cont=kind)
     items = c["items"]
     for i in range(len(items)):
-        yield {"op": c["op"], "items": items[:i] + items[i + 1:]}
+        yield _with(c, items[:i] + items[i + 1:])
     for i, it in enumerate(items):
         if isinstance(it, list):
-            yield {"op": c["op"], "items": items[:i] + it + items[i + 1:]}
-            for sub in shrink({"op": c["op"], "items": it}):
-                yield {"op": c["op"], "items": items[:i] + [sub["items"]] + items[i + 1:]}
+            yield _with(c, items[:i] + it + items[i + 1:])
+            for sub in shrink({"op": "roundtrip", "items": it}):
+                yield _with(c, items[:i] + [sub["items"]] + items[i + 1:])
+        elif isinstance(it, dict) and "r" in it:
+            h, pt, n, tl = it["r"]
+            for r2 in ([h, pt, n // 2, tl], [h, pt, n - 1, tl], ["-", pt, n, tl], [h, pt, n, "-"], [h, "61", n * len(unhx(pt)), tl]):
+                if r2 != it["r"] and r2[2] >= 0:
+                    yield _with(c, items[:i] + [{"r": r2} if r2[2] > 16 else B(item_bytes({"r": r2}))] + items[i + 1:])
         elif isinstance(it, dict):
             b = unhx(it["b"])
             if len(b) > 16:
                 for k in (len(b) // 2, len(b) - 1):
-                    yield {"op": c["op"], "items": items[:i] + [B(b[:k])] + items[i + 1:]}
-                    yield {"op": c["op"], "items": items[:i] + [B(b[len(b) - k:])] + items[i + 1:]}
+                    yield _with(c, items[:i] + [B(b[:k])] + items[i + 1:])
+                    yield _with(c, items[:i] + [B(b[len(b) - k:])] + items[i + 1:])
             else:
                 for j in range(len(b)):
-                    yield {"op": c["op"], "items": items[:i] + [B(b[:j] + b[j + 1:])] + items[i + 1:]}
+                    yield _with(c, items[:i] + [B(b[:j] + b[j + 1:])] + items[i + 1:])
         elif isinstance(it, int):
             if it != 0:
-                yield {"op": c["op"], "items": items[:i] + [0] + items[i + 1:]}
+                yield _with(c, items[:i] + [0] + items[i + 1:])
 
 
 def _depth(tree):
     return 1 + max([_depth(t) for t in tree if isinstance(t, list)], default=0)
 
 
+def _bucket(n, edges):
+    for e in edges:
+        if n <= e:
+            return "<=%d" % e
+    return ">%d" % edges[-1]
+
+
 def tag(c, out):
     oc = "raise:" + out.split()[-1] if out.startswith("!") else "ok"
     if "items" in c:
-        ss = list(_strings(c["items"]))
-        flat = toks_in(c["items"])
+        items = final_tree(c) if c["op"] == "reuse" else c["items"]
+        ss = list(_strings(items))
+        flat = toks_in(items) if tree_size(items) <= BIG_MODEL else ["s"]
         f = []
         if any(b"\\" in s for s in ss):
             f.append("bs")
@@ -363,10 +725,12 @@ def tag(c, out):
             f.append("edge")
         if any(s[-1:] in WS and s for s in ss):
             f.append("wstail")
-        if any(set(s) & set(b"()[]{}") for s in ss):
+        if any(set(s[:64] + s[-64:]) & set(b"()[]{}") for s in ss):
             f.append("brk")
-        if any(s.strip().upper() == b"NIL" for s in ss):
+        if any(len(s) < 8 and s.strip().upper() == b"NIL" for s in ss):
             f.append("nilish")
+        if any(set(s[:64] + s[-64:]) & set(b"".join(EXOTIC[:12])) for s in ss):
+            f.append("exo")
         if b"" in ss:
             f.append("empty")
         if "n" in flat:
@@ -375,7 +739,17 @@ def tag(c, out):
             f.append("int")
         if any(t.startswith("i-") for t in flat):
             f.append("neg")
-        return f"{c['op']}:{'+'.join(f)}:d{_depth(c['items'])}:{oc}"
+        big = max([len(s) for s in ss], default=0)
+        if big > 1005:
+            f.append("big" + _bucket(big, [4096, 9999, 65535, 99999, 999999]))
+        if c.get("cont"):
+            f.append("as-" + c["cont"])
+        if c.get("sub"):
+            f.append("sub-" + c["sub"])
+        if c["op"] == "reuse":
+            f.append("edits%d" % min(len(c["edits"]), 2) + ("+pre" if c["pre"] else "") + ("+scr" if c["scribble"] else ""))
+        d = _depth(items)
+        return f"{c['op']}:{'+'.join(f)}:d{d if d <= 5 else _bucket(d, [12, 32, 64, 128])}:{oc}"
     s = unhx(c["s"])
     f = [ch for ch, b in (("q", b'"'), ("b", b"\\"), ("l", b"{"), ("p", b"("), ("k", b"["), ("n", b"NIL")) if b in s]
     return f"{c['op']}{c.get('hl', '')}:{''.join(f)}:{oc}"
